@@ -85,17 +85,39 @@ def two_pass(seq, law_id='lin'):
     return det
 
 
-def multi_samples(seq, scales, node_ids=None):
+def multi_samples(seq, scales, node_ids=None, labels=None):
     """Series with MultiIndex (load_step, node_id): point p carries scales[p] * seq."""
     node_ids = node_ids or list(range(len(scales)))
-    idx = pd.MultiIndex.from_product([range(len(seq)), node_ids], names=['load_step', 'node_id'])
+    idx = pd.MultiIndex.from_product([labels if labels is not None else range(len(seq)), node_ids], names=['load_step', 'node_id'])
     vals = [float(c) * float(v) for v in seq for c in scales]
     return pd.Series(vals, index=idx)
 
 
-def two_pass_multi(seq, scales, law_id='lin', node_ids=None):
+def history_multi(seq, scales, law_id, cuts, flushes, node_ids=None, labels=None):
+    """Raw process(chunk, flush) history on a batch of proportional points."""
     det = new_detector(ExactLaw(law_id))
-    smp = multi_samples(seq, scales, node_ids)
+    smp = multi_samples(seq, scales, node_ids, labels)
+    npts = len(scales)
+    pos = 0
+    for c, fl in zip(cuts, flushes):
+        det.process(smp.iloc[pos * npts:(pos + c) * npts], flush=fl)
+        pos += c
+    return det
+
+
+def history_single(seq, law_id, cuts, flushes):
+    det = new_detector(ExactLaw(law_id))
+    arr = np.asarray(seq, dtype=np.float64)
+    pos = 0
+    for c, fl in zip(cuts, flushes):
+        det.process(arr[pos:pos + c], flush=fl)
+        pos += c
+    return det
+
+
+def two_pass_multi(seq, scales, law_id='lin', node_ids=None, labels=None):
+    det = new_detector(ExactLaw(law_id))
+    smp = multi_samples(seq, scales, node_ids, labels)
     det.process_hcm_first(smp)
     det.process_hcm_second(smp)
     return det
